@@ -31,6 +31,9 @@ func (s *Server) Listen(req *signaling.ListenRequest, strm signaling.SRPCSignali
 		tkr.broadcast()
 	}
 	listenNonce := tkr.listenNonce
+	// mark the tracker as in use by a Listen call so that it is not released
+	// (and replaced by a fresh tracker we do not watch) when the last want goes away.
+	tkr.listening = true
 	s.mtx.Unlock()
 
 	// Cleanup when we exit
